@@ -78,12 +78,18 @@ def check_equiv(inp):
       mean = jax.tree_util.tree_map(lambda *xs: sum(x * w for x, w in zip(xs, ws)) / W if W else 0 * xs[0], *deltas)
       st['opt'], st['params'] = sopt.apply(mean, st['opt'], st['params'])
       ref.append(jax.tree_util.tree_map(np.asarray, st['params']))
-  elif which in ('hyp1', 'hyp1_drop'):
+  elif which in ('hyp1', 'hyp1_drop', 'hyp1_reg'):
     hph = cds.ShuffleRepeatBatchHParams(batch_size=2, num_epochs=2, seed=4, drop_remainder=(which == 'hyp1_drop'))
+    reg = None
+    if which == 'hyp1_reg':
+      # the regularizer option: one cluster = FedAvg on grad(per_example_loss, regularizer)
+      def reg(params):
+        return 0.3 * sum(jnp.sum(x ** 2) for x in jax.tree_util.tree_leaves(params))
+      ref = run(fed_avg.federated_averaging(models.grad(pel, reg), copt, sopt, hph), rounds)
     if which == 'hyp1_drop':
       # clients smaller than one batch keep their example weight in FedAvg; one cluster must agree
       ref = run(fed_avg.federated_averaging(grad_fn, copt, sopt, hph), rounds)
-    alg = hyp_cluster.hyp_cluster(pel, copt, sopt, php, hph, regularizer=None)
+    alg = hyp_cluster.hyp_cluster(pel, copt, sopt, php, hph, regularizer=reg)
     st = alg.init([params0()])
     got = []
     for r, sizes in enumerate(rounds):
@@ -160,6 +166,7 @@ def sweep_equiv(tier, seed):
   yield dict(which='fedprox_pos', copt='momentum', rounds=R)
   yield dict(which='hyp1', copt='sgd', rounds=R)
   yield dict(which='hyp1', copt='momentum', rounds=R)
+  yield dict(which='hyp1_reg', copt='sgd', rounds=R)
   yield dict(which='hyp1_drop', copt='momentum', rounds=[[1, 4], [3, 1, 1], [5, 2]])
   yield dict(which='mimelite', copt='sgd', rounds=R)
   yield dict(which='mimelite_pmap', copt='sgd', rounds=[[2, 4, 6], [4, 2]])
